@@ -13,8 +13,12 @@ import Ach.Generated.Topics
 * `create_numbers_*` — the numbering rule of `File.Create`: all-absent numbers become 1..n; a second Create changes nothing;
   a preset first number with absent later ones is NOT ascending (`create_numbers_counterexample`, known finding of C05).
 
-IAT and ADV batches follow the same scheme with their own generated lists (`classification_consistent` of C03 shows the
-lists coincide); they are covered by the oracle.  `Create`/`Validate` of the outputs: C05/C03.
+IAT batches: `segmentFileIATBatches` has the same shape with its own generated case lists, and
+`segment_iat_lists_same` (F) shows they *are* the standard lists on the current source — so `segOne` / `segment` is also
+the model of the IAT splitter and every theorem above holds for IAT batches; the `segmentiat` correspondence stream
+runs the real `SegmentFile` on IAT-only and mixed files against it (fresh halves numbered 1, one numbering pass over
+standard then IAT batches, only the standard numbers validated).  ADV batches (`segmentFileBatchAddADVEntry`): oracle.
+`Create`/`Validate` of the outputs: C05/C03.
 -/
 namespace Ach.Props.C11
 open Ach Ach.Gen Ach.Segment
@@ -24,6 +28,9 @@ theorem segment_lists_disjoint :
     (∀ c ∈ segCreditCodes, !segDebitCodes.contains c) ∧
     (∀ c ∈ standardEntryCodes, segCreditCodes.contains c || segDebitCodes.contains c) ∧
     (∀ c ∈ segCreditCodes, creditOrDebit c = .credit) ∧ (∀ c ∈ segDebitCodes, creditOrDebit c = .debit) := by decide
+
+/-- F: the case lists of `segmentFileIATBatches` are the case lists of `segmentFileBatchAddEntry` -/
+theorem segment_iat_lists_same : segIatCreditCodes = segCreditCodes ∧ segIatDebitCodes = segDebitCodes := by decide
 
 theorem filter_partition {α} (p q : α → Bool) : ∀ (l : List α), (∀ a ∈ l, (p a = true ∧ q a = false) ∨ (p a = false ∧ q a = true)) →
     (l.filter p ++ l.filter q).Perm l
